@@ -381,6 +381,36 @@ func c17Gen(r *vfRand, size int) c17Case {
 	return c
 }
 
+// c17Scenario: 0 = a schedule made of the single region "" whose reprovide splits it (the
+// swarm grew from 2 to 40 peers): every region but the first used to skip a whole cycle;
+// 1 = replication factor 1 below the router's 20: every region holds one or two keys and is
+// reprovided individually, and the prefix covered by that one lookup is broader than the
+// region: rescheduling it used to drop the sibling regions without reproviding their keys.
+func c17Scenario(i int) (c17Case, string) {
+	all := func(n int) []int {
+		p := make([]int, n)
+		for j := range p {
+			p[j] = j
+		}
+		return p
+	}
+	c := c17Case{K: 20, IntervalS: 3600, MaxDelayS: 360, OfflineDelayS: 7200, CheckIntervalS: 60,
+		MaxWorkers: 4, Periodic: 1, Burst: 1, Conns: 20, GraceS: 7 * 60}
+	if i == 0 {
+		c.NKeys, c.NPeers, c.R = 64, 40, 2
+		c.Steps = []c17Step{{Act: "swarm", Peers: []int{0, 1}}, {Act: "net", Up: true},
+			{Sleep: 600, Act: "start", Keys: all(64)},
+			{Sleep: 1200, Act: "swarm", Peers: all(40)},
+			{Sleep: 4 * 3600, Act: "none"}}
+		return c, "single-region-split"
+	}
+	c.NKeys, c.NPeers, c.R = 10, 40, 1
+	c.Steps = []c17Step{{Act: "swarm", Peers: all(40)}, {Act: "net", Up: true},
+		{Sleep: 600, Act: "start", Keys: all(10)},
+		{Sleep: 4 * 3600, Act: "none"}}
+	return c, "individual-broader-prefix"
+}
+
 type c17Result struct {
 	swarms  [][]peer.ID
 	events  []c17Ev
@@ -812,7 +842,7 @@ func c17SchedCase(t *testing.T, r *vfRand, i int) (term string, desc map[string]
 		out = []string{"[]", "[]", "[]", "[]"}
 	}
 	term = fmt.Sprintf("CSched %d %s %s %s %s %s %s", int64(interval), vfBits(orderBits), out[0], out[1], out[2], out[3], vfBool(fail != ""))
-	desc = map[string]any{"case": i, "kind": "sched", "interval_ns": int64(interval), "order": orderBits, "fail": fail}
+	desc = map[string]any{"case": 100000 + i, "kind": "sched", "interval_ns": int64(interval), "order": orderBits, "fail": fail}
 	return term, desc, sig, fail
 }
 
@@ -824,7 +854,8 @@ func TestVerifC17(t *testing.T) {
 	root := vfNewRand(seed ^ 0x5eed17)
 	for i := 0; i < n; i++ {
 		r := root.Fork()
-		if only >= 0 && i != only {
+		// case numbers of this harness start at 100000 (the buffered harness shares the property)
+		if only >= 0 && 100000+i != only {
 			continue
 		}
 		if i%4 == 3 {
@@ -838,6 +869,7 @@ func TestVerifC17(t *testing.T) {
 			continue
 		}
 		cs.Count("kind:trace", 1)
+		scenario := ""
 		size := 0
 		if vfThorough() {
 			size = []int{0, 1, 1, 2}[i%4]
@@ -845,6 +877,11 @@ func TestVerifC17(t *testing.T) {
 			size = 1
 		}
 		c := c17Gen(r, size)
+		if i < 2 {
+			// two fixed scenarios (the same in every run): minimal replays of two schedule defects
+			r = vfNewRand(0xc17 + uint64(i))
+			c, scenario = c17Scenario(i)
+		}
 		keys, peers := c17Pools(r, c.NKeys, c.NPeers)
 		res := c17Run(t, r, c, keys, peers)
 
@@ -873,9 +910,9 @@ func TestVerifC17(t *testing.T) {
 		cs.Count("add-provider-messages", res.nSent)
 		cs.Count("router-calls", res.nRouter)
 		idx := cs.Add(fmt.Sprintf("CTrace %s\n %s %s", params, tr, vfBool(res.fail != "")),
-			map[string]any{"case": i, "seed": seed, "kind": "trace", "config": c, "events": len(res.events),
+			map[string]any{"case": 100000 + i, "seed": seed, "kind": "trace", "config": c, "events": len(res.events),
 				"sent": res.nSent, "end_us": res.endUs, "fail": res.fail, "unknown_sends": res.unknown,
-				"misrouted": misrouted, "misrouted_explained_by_alloc_depth": explained}, s)
+				"misrouted": misrouted, "misrouted_explained_by_alloc_depth": explained, "scenario": scenario}, s)
 		if res.fail != "" {
 			cs.Fail(idx, "panic / hang / error in the sweeping provider", res.fail)
 		}
